@@ -198,8 +198,9 @@ CLAIMED['C15'] = {
             'under the global context.',
     'note': 'Hand-written model of file_list / file_makers / copy_dir_contents / files_matcher.models / matches_* / quantifiers / files_condition / file_type / dir_contents, tied '
             'to the code by ~3700 (quick) / 36000 (thorough) complete in-process cases on real trees with symlinks. Oracles: scandir (any permutation), fnmatch / PurePath.match '
-            '(tables). Symlink cycles are outside the tree type; the matcher theorem is conditional on the manual\'s semantics being defined (no consulted file of a HARD_ERROR '
-            'type: then order-dependence is real). Not modelled: regex name patterns, `run` matcher, text matchers beyond is-empty/equals.',
+            '(tables), regex name/path patterns (re.search), `contents` with any TEXT-MATCHER and the `run` matcher (oracle records, all theorems stated for every oracle). Symlink '
+            'cycles are outside the tree type; the matcher theorem is conditional on the manual\'s semantics being defined (no consulted file of a HARD_ERROR type: then '
+            'order-dependence is real). Not modelled: symbol references inside matchers, -path-arg-marker, non-constant TEXT-SOURCEs in FILE-LISTs.',
     'technique': 'Coq proofs over an executable model (nested induction over trees and FILE-LISTs, frame lemmas, BFS-vs-DFS up to Permutation, mutual induction over the matcher '
                  'syntaxes) + differential correspondence by vm_compute',
 }
@@ -208,12 +209,13 @@ CLAIMED['C10'] = {
             'program resolution = a declarative denotation on every well-formed symbol table and never out of fuel; arguments, stdin parts and transformations accumulate in '
             'definition order for chains of ANY length; the process of a chain gets the denoted executable, stdin (program parts then [setup] stdin, in denoted order) and cwd; a '
             'shell command is one verbatim string, everything else an argv vector; list and string symbols splice; the exit-code decision for every code and phase; act outcome = '
-            'what exit-code/stdout/stderr see; the file, source and null actors; whole-case refinement run_case = spec_run_case. 22 theorems closed under the global context; the '
-            'pre-fix stdin order is refuted by witness.',
+            'what exit-code/stdout/stderr see; the file, source and null actors; programs as transformer / text matcher / file matcher (`run`); whole-case refinement '
+            'run_case = spec_run_case for every well-formed table and EVERY case, definitions interleaved with uses in any phase. 27 theorems closed under the global '
+            'context; the pre-fix stdin order is refuted by witness.',
     'note': 'Model/Prog.v mirrors accumulated_components, program_symbol_sdv, command_program_sdv, list/string resolution, _CommandTranslator, actors, text-source programs, '
             'result_to_sh/pfh, _register_outcome; modelled, not verified. Oracle: outcome of the k-th started process as reported by the probe. Tie: ~960 real cases per quick run '
             '(12500 thorough, all 256 exit codes) whose programs are probes (recording process executor + child-side reports of argv/stdin/cwd). Out of scope by construction: '
-            'path resolution (C12), string syntax (C09), transformer semantics (C05), env/timeout (C11/C19). The refinement theorem is for cases whose definitions are already made.',
+            'path resolution (C12), string syntax (C09), transformer semantics (C05), env/timeout (C11/C19).',
     'technique': CORR + ' (probe programs; recording ProcessExecutor)',
 }
 CLAIMED['C07'] = {
